@@ -67,11 +67,12 @@ structure OSt where
   bad : List String := []
   deriving Repr
 
-/-- Violated clauses are recorded by name. Histories in which a worker incarnation died after it
-reported a completion that the factory had not yet processed (`stale`, finding F4) get the
-suffix `@stale-completion`: that is the classifier of the known finding. -/
+/-- Violated clauses are recorded by name. In histories in which a worker incarnation died
+after it reported a completion that the factory had not yet processed (`stale`, finding F4) the
+factory's belief about that slot is wrong from then on; whatever clause trips afterwards is
+recorded as `<property>-stale-completion`: that is the classifier of the known finding. -/
 def OSt.flag (s : OSt) (c : String) : OSt :=
-  { s with bad := s.bad ++ [if s.stale then c ++ "@stale-completion" else c] }
+  { s with bad := s.bad ++ [if s.stale then (c.take 4).toString ++ "stale-completion" else c] }
 
 def OSt.getJob (s : OSt) (id : Nat) : Option JobRec := s.jobs.find? (·.id == id)
 def OSt.setJob (s : OSt) (j : JobRec) : OSt :=
@@ -149,7 +150,7 @@ def oStep (s : OSt) : Ev → OSt
       | some j =>
         let s := if j.discards > 0 then s.flag "c13-discarded-twice" else s
         let s := if j.started.isSome then s.flag "c13-handled-and-discarded" else s
-        let s := if j.afterDrain && r != .shutdown then s.flag "c15-drain-wrong-reason" else s
+        let s := if j.afterDrain && r != .shutdown && r != .ttlExpired then s.flag "c15-drain-wrong-reason" else s
         s.setJob { j with discards := j.discards + 1 }
   | .reply id back =>
     match s.getJob id with
@@ -164,7 +165,7 @@ def oStep (s : OSt) : Ev → OSt
     let hs := s.hooks ++ [h]
     let s := { s with hooks := hs }
     if isPrefixOf' hs [.started, .draining, .stopped] then s else s.flag "c15-hook-order"
-  | .lost .. | .dropped _ | .panicked => s
+  | .lost .. | .dropped _ | .panicked | .portClosed _ => s
   | .snap up q act _cap live =>
     let blocked := up && q.isNone
     let s := if !up && s.up && !s.hooks.contains .stopped then s.flag "c15-stopped-without-hook" else s
@@ -185,6 +186,12 @@ def oStep (s : OSt) : Ev → OSt
         -- C14 queuer never idles a worker while a job waits
         let s := if s.info.router == RouterKind.q && q > 0 && act < live.length && s.info.rl.isNone
           then s.flag "c14-queuer-idle-worker" else s
+        -- C14: worker-queueing routers never leave a job in the factory queue while the pool is non-empty
+        let s := if !isFactoryQueueing s.info.router && s.requested > 0 && q > 0
+          then s.flag "c14-worker-router-backlog" else s
+        -- C13: a worker the factory counts as busy has an actor that is running a job (jobs
+        -- queued for a worker that died are handed to its replacement)
+        let s := if act > s.running.length then s.flag "c13-queued-job-not-handed-over" else s
         -- C15 pool convergence: nobody busy ⇒ live workers are exactly slots 0..n-1
         let s := if act == 0 && s.running.isEmpty then
             let wids := live.filterMap fun a => (s.widOf.find? (fun (x : Nat × Nat) => x.1 == a)).map (fun (x : Nat × Nat) => x.2)
